@@ -366,8 +366,8 @@ def prev_for_eq(draw, v, tier):
         p = draw(gv.values(tier, 6))
     else:
         p = draw(gr.mutate(v, tier))
-    if not gv.sound(p):
-        p = v
+    if not gv.sound(p) or not gv.no_dup_keys(p):
+        p = v if gv.no_dup_keys(v) else ["int", 0]
     return p
 
 
